@@ -104,11 +104,12 @@ func verifDir() string {
 
 // procResult is the outcome of verifying one procedure.
 type procResult struct {
-	fi     *FuncInfo
-	proc   *Proc
-	err    error
-	obls   []*Obligation
-	probes []*Obligation
+	fi         *FuncInfo
+	proc       *Proc
+	err        error
+	obls       []*Obligation
+	probes     []*Obligation
+	callProbes []*Obligation
 }
 
 // hasSafety reports whether the contract claims panic freedom.
@@ -141,6 +142,7 @@ func runProcs(c *Ctx, keys []string) []*procResult {
 		}
 		r.obls = p.obls
 		r.probes = p.probes
+		r.callProbes = p.callProbes
 		out = append(out, r)
 	}
 	return out
@@ -219,6 +221,9 @@ func cmdVerify(args []string) {
 		}
 	}
 	solveAll(c, all, facts, dir, *timeout, runtime.NumCPU())
+	for _, b := range checkConsistency(c, res, dir) {
+		fmt.Printf("INCONSISTENT callee contract at call site: %s\n", b)
+	}
 	bad := 0
 	for _, ob := range all {
 		ok := ob.Status == "unsat"
